@@ -23,8 +23,11 @@ pub enum J {
 
 pub const KEYS: &[&str] = &["a", "b", "c", "k", "n", "s", "xs", "foo", "bar", "id"];
 pub const STRS: &[&str] = &[
-    "x", "y", "", "abc", "b", "a", "\u{e4}\u{1F600}", "10", "zz", "A b", "q\"q", "\u{20ac}",
+    "x", "y", "", "abc", "b", "a", "\u{e4}\u{1F600}", "10", "zz", "A b", "q\"q", "\u{20ac}", "e\u{301}", " pad ",
+    "0123456789012345678901234567890123456789012345678901234567890123456789", "-1.5e3", "null",
 ];
+/// keys that are not plain identifiers (used now and then, quoted in expressions)
+pub const ODD_KEYS: &[&str] = &["\u{e9}t\u{e9}", "a b", "", "\u{1F600}", "K", "a.b", "0"];
 
 impl J {
     pub fn to_json(&self) -> String {
@@ -167,13 +170,20 @@ impl J {
                 J::Arr(v)
             }
             _ => {
-                let n = r.below(5);
+                let many = r.chance(1, 25);
+                let n = if many { 18 + r.below(10) } else { r.below(5) };
                 let mut m: Vec<(String, J)> = Vec::new();
-                for _ in 0..n {
-                    if *budget <= 0 {
+                for i in 0..n {
+                    if *budget <= 0 && !many {
                         break;
                     }
-                    let k = (*r.pick(KEYS)).to_string();
+                    let k = if many {
+                        format!("k{:02}", (i * 7) % 31)
+                    } else if r.chance(1, 14) {
+                        (*r.pick(ODD_KEYS)).to_string()
+                    } else {
+                        (*r.pick(KEYS)).to_string()
+                    };
                     if m.iter().any(|(kk, _)| *kk == k) {
                         continue;
                     }
